@@ -21,7 +21,8 @@ fn s(x: &str) -> String {
 
 pub fn tree_space(tier: Tier, uidrun: bool) -> TreeSpace {
     TreeSpace {
-        names: vec!["a", "b"],
+        // one name is a textual prefix of the other on purpose (string- vs component-level comparisons)
+        names: vec!["a", "ab"],
         max_depth: 2,
         max_entries: match (tier, uidrun) {
             (Tier::Quick, _) => 3,
@@ -33,6 +34,23 @@ pub fn tree_space(tier: Tier, uidrun: bool) -> TreeSpace {
         extra_targets: vec![],
         target_depth: 2,
     }
+}
+
+/// every tree plus, one entry at a time, a non-default mode (dir 0o700 / file 0o600): calls that derive
+/// a mode from an existing entry (copy creating parents, chmod presets, ...) only show on such trees
+pub fn with_mode_variants(trees: Vec<Tree>) -> Vec<Tree> {
+    let mut out = vec![];
+    for t in trees {
+        let keys: Vec<String> = t.nodes.iter().filter(|(_, n)| !n.is_link()).map(|(k, _)| k.clone()).collect();
+        out.push(t.clone());
+        for k in keys {
+            let mut v = t.clone();
+            let n = v.nodes.get_mut(&k).unwrap();
+            n.mode = if n.is_dir() { 0o700 } else { 0o600 };
+            out.push(v);
+        }
+    }
+    out
 }
 
 /// the call alphabet in sandbox-relative form ("/a" = <sandbox>/a); `@` marks paths to re-root
@@ -157,7 +175,8 @@ pub fn alphabet(root_uid: bool) -> Vec<Op> {
         Op::Abs(s("a/../b//")),
         Op::Abs(s("..")),
     ]);
-    ops
+    // the alphabet above is written over the names {a, b}; the namespace actually used is {a, ab}
+    ops.iter().map(|o| o.map_paths(|p, _| p.replace('b', "ab"))).collect()
 }
 
 fn reroot_op(op: &Op, sb: &str) -> Op {
@@ -291,7 +310,7 @@ fn outside_domain(tree: &Tree, op: &Op) -> bool {
 /// queries asked on both backends after every mutating call
 fn follow_up_queries() -> Vec<Op> {
     let mut q = vec![];
-    for p in ["/a", "/a/a", "/a/b", "/b", "/b/a", "/b/b", "/zz"] {
+    for p in ["/a", "/a/a", "/a/ab", "/ab", "/ab/a", "/ab/ab", "/zz"] {
         let p = s(p);
         q.extend([Op::Exists(p.clone()), Op::IsFile(p.clone()), Op::IsDir(p.clone()), Op::IsSymlink(p.clone()), Op::ReadAll(p.clone()), Op::ReadlinkAbs(p.clone()), Op::Mode(p.clone())]);
     }
@@ -321,7 +340,7 @@ pub fn worker(w: &mut WorkerCtx) {
     let sb = Sandbox::new(&format!("c02.{}", w.shard));
     let sbr = sb.root.clone();
     std::env::set_var("HOME", &sbr);
-    let trees = enum_trees(&tree_space(w.tier, !root_uid));
+    let trees = with_mode_variants(enum_trees(&tree_space(w.tier, !root_uid)));
     let ops_rel = alphabet(root_uid);
     let ops: Vec<Op> = ops_rel.iter().map(|o| reroot_op(o, &sbr)).collect();
     let stdfs = Stdfs::new();
@@ -496,7 +515,7 @@ pub fn run(ctx: &Ctx) -> i32 {
         let case: u64 = ix.parse().unwrap_or(0);
         let (ti, oi) = ((case >> 16) as usize, (case & 0xFFFF) as usize);
         for uidrun in [false, true] {
-            let trees = enum_trees(&tree_space(ctx.tier, uidrun));
+            let trees = with_mode_variants(enum_trees(&tree_space(ctx.tier, uidrun)));
             println!("uidrun={} tree[{}] = {:?}; call[{}] = {:?}", uidrun, ti, trees.get(ti).map(|t| t.render()), oi, alphabet(!uidrun).get(oi).map(|o| o.render()));
         }
         return 0;
@@ -514,7 +533,7 @@ pub fn run(ctx: &Ctx) -> i32 {
         eprintln!("machinery: {} worker problems, {} setup failures: {:?}", g.failed.len(), g.c("machinery_setup_failures"), g.failed.first());
         return 2;
     }
-    let ntrees = enum_trees(&tree_space(ctx.tier, false)).len();
+    let ntrees = with_mode_variants(enum_trees(&tree_space(ctx.tier, false))).len();
     let cov = J::obj([
         ("states", J::i(g.c("trees"))),
         ("transitions", J::i(g.c("pairs"))),
@@ -553,7 +572,7 @@ fn replay(ctx: &Ctx, p: &std::path::Path) -> i32 {
     let oi = case.get("call_idx").and_then(|x| x.as_i64()).unwrap_or(0) as usize;
     let root_uid = unsafe { libc::geteuid() } == 0;
     for tier in [Tier::Quick, Tier::Thorough] {
-        let trees = enum_trees(&tree_space(tier, false));
+        let trees = with_mode_variants(enum_trees(&tree_space(tier, false)));
         if let Some(t) = trees.get(ti) {
             if Some(t.render().as_str()) != case.get("tree").and_then(|x| x.as_str()) {
                 continue;
